@@ -10,6 +10,7 @@ import (
 	"strings"
 
 	"github.com/cloudwego/hertz/pkg/app/server/binding"
+	"github.com/cloudwego/hertz/pkg/protocol"
 
 	"verif/harness/lib/mon"
 )
@@ -394,6 +395,32 @@ func validate(expr string, x *vals) (bool, interface{}, string) {
 	return err == nil, pv, st
 }
 
+// validateWrapped: the same value as the only element of a slice (or the only value of a
+// map) field of an outer struct that has no validation tag of its own, validated the way
+// handlers do it — BindAndValidate on a request that carries nothing to bind.
+func validateWrapped(expr string, x *vals, asMap bool) (bool, interface{}, string) {
+	t := buildType(expr)
+	v := reflect.New(t)
+	setVals(v, x)
+	var outer reflect.Value
+	if asMap {
+		ot := reflect.StructOf([]reflect.StructField{{Name: "Items", Type: reflect.MapOf(reflect.TypeOf(""), reflect.PtrTo(t)), Tag: `json:"items"`}})
+		outer = reflect.New(ot)
+		m := reflect.MakeMap(ot.Field(0).Type)
+		m.SetMapIndex(reflect.ValueOf("k"), v)
+		outer.Elem().Field(0).Set(m)
+	} else {
+		ot := reflect.StructOf([]reflect.StructField{{Name: "Items", Type: reflect.SliceOf(reflect.PtrTo(t)), Tag: `json:"items"`}})
+		outer = reflect.New(ot)
+		outer.Elem().Field(0).Set(reflect.Append(reflect.MakeSlice(ot.Field(0).Type, 0, 1), v))
+	}
+	req := &protocol.Request{}
+	req.SetRequestURI("http://h/p")
+	var err error
+	pv, st := mon.Guard(func() { err = binding.BindAndValidate(req, outer.Interface(), nil) })
+	return err == nil, pv, st
+}
+
 func judgeTree(w *mon.W, c *mon.Case, ast *node, x *vals, r *mon.Rand) bool {
 	expr := ast.str(r, 0, false)
 	st := &evalState{}
@@ -403,7 +430,22 @@ func judgeTree(w *mon.W, c *mon.Case, ast *node, x *vals, r *mon.Rand) bool {
 		w.Count("reference_evaluator_errors", 1)
 		return true
 	}
-	got, pv, stack := validate(expr, x)
+	var got bool
+	var pv interface{}
+	var stack string
+	route := ""
+	switch r.Intn(8) {
+	case 0:
+		route = " (as the element of a slice field, through BindAndValidate)"
+		got, pv, stack = validateWrapped(expr, x, false)
+		w.Count("validations_through_bindandvalidate", 1)
+	case 1:
+		route = " (as the value of a map field, through BindAndValidate)"
+		got, pv, stack = validateWrapped(expr, x, true)
+		w.Count("validations_through_bindandvalidate", 1)
+	default:
+		got, pv, stack = validate(expr, x)
+	}
 	w.Count("validations", 1)
 	c.Detail = func() interface{} {
 		return map[string]interface{}{"expression": expr, "values": fmt.Sprintf("%+v L=%v P=%v", *x, x.L, x.P != nil)}
@@ -423,7 +465,7 @@ func judgeTree(w *mon.W, c *mon.Case, ast *node, x *vals, r *mon.Rand) bool {
 		w.Count("rejected", 1)
 	}
 	if got != want {
-		c.Violate("accept-reject", "expression %q with values X=%v A=%d S=%q T=%v len(L)=%d P!=nil=%v: Validate %s, the expression evaluates to %v", expr, x.X, x.A, x.S, x.T, len(x.L), x.P != nil, map[bool]string{true: "accepts", false: "rejects"}[got], want)
+		c.Violate("accept-reject", "expression %q"+route+" with values X=%v A=%d S=%q T=%v len(L)=%d P!=nil=%v: Validate %s, the expression evaluates to %v", expr, x.X, x.A, x.S, x.T, len(x.L), x.P != nil, map[bool]string{true: "accepts", false: "rejects"}[got], want)
 		return false
 	}
 	if ast.depth() >= 2 {
